@@ -1,7 +1,7 @@
 From Coq Require Import List NArith Bool Arith Permutation Lia.
 Import ListNotations.
 Require Import MV.Common.Interleave MV.C05.Model MV.C05.Spec MV.C05.Exec.
-Require Import MV.C05.ProofsSeq MV.C05.ProofsInv MV.C05.ProofsCor MV.C05.ProofsUniq MV.C05.ProofsCons MV.C05.ProofsProg MV.C05.ProofsSnap MV.C05.ProofsEmpty MV.C05.ProofsOrder MV.C05.ProofsSpec.
+Require Import MV.C05.ProofsSeq MV.C05.ProofsInv MV.C05.ProofsCor MV.C05.ProofsUniq MV.C05.ProofsCons MV.C05.ProofsProg MV.C05.ProofsSnap MV.C05.ProofsEmpty MV.C05.ProofsOrder MV.C05.ProofsSpec MV.C05.ProofsTrace1 MV.C05.ProofsTrace2 MV.C05.ProofsTrace3.
 Local Open Scope nat_scope.
 Require Import MV.C05.Properties.
 
@@ -163,6 +163,28 @@ Check (C05_spec_no_double_clear_on_model : forall c : case,
   let '(tr, rss, _, _, _) := run_case c in
   nodupb (flat_map handed (filter is_clear (rcalls tr 0 rss))) = true).
 Print Assumptions C05_spec_no_double_clear_on_model.
+Check (C05_spec_shape_on_model : forall c : case,
+  let '(_, rss, _, _, _) := run_case c in all2 follows (progs_of c) rss = true).
+Print Assumptions C05_spec_shape_on_model.
+Check (C05_spec_written_before_read_on_model : forall c : case,
+  let '(tr, rss, _, _, _) := run_case c in
+  forallb (fun rc => forallb (fun qs => slice_genuine (pinfos tr 0 (progs_of c)) (fst qs) (snd qs) &&
+                                         match fst qs with Some _ => true | None => false end) (rsl rc))
+          (rcalls tr 0 rss) = true).
+Print Assumptions C05_spec_written_before_read_on_model.
+Check (C05_spec_reads_no_dup_on_model : forall c : case,
+  let '(tr, rss, _, _, _) := run_case c in
+  forallb (fun rc => nodupb (handed rc)) (rcalls tr 0 rss) = true).
+Print Assumptions C05_spec_reads_no_dup_on_model.
+Check (C05_spec_ok_on_model_partial : forall c : case,
+  let '(tr, rss, done, final, anom) := run_case c in
+  anom = 0%N /\ all2 follows (progs_of c) rss = true /\
+  nodupb (flat_map handed (filter is_clear (rcalls tr 0 rss))) = true /\
+  forallb (fun rc => nodupb (handed rc)) (rcalls tr 0 rss) = true /\
+  forallb (fun rc => forallb (fun qs => slice_genuine (pinfos tr 0 (progs_of c)) (fst qs) (snd qs) &&
+                                         match fst qs with Some _ => true | None => false end) (rsl rc))
+          (rcalls tr 0 rss) = true).
+Print Assumptions C05_spec_ok_on_model_partial.
 Check (C05_popcount_len_refuted : let cf := fst (exec (step BS true true) site (init_config [[CPush 1%N]; [CPush 2%N]; [CData]]) popcount_sched) in
   let k := getb (heap (fst cf)) 0 in
   option_map pcl (nth_error (snd cf) 2) = Some (WD false 0 []) /\
